@@ -23,11 +23,14 @@ CLAIM = dict(
     "Orbit.iter / ephem / ephemeris / Station.visibility) on 10 propagator fixtures, two of which (ClohessyWiltshire, KeplerNum) carry an "
     "impulse dated exactly at the epoch, an impulse inside the range and a continuous burn. The yielded dates are compared with an exact "
     "integer-microsecond range model, every yielded state with a direct propagate() on a fresh object, and the initial orbit as well as "
-    "the propagator's bound copy must be bit-identical afterwards. Part B is an explicit-state search: all call sequences up to depth 3 "
-    "(quick) / 4 (thorough) over 8 operations (propagate to two dates, full iteration, iteration abandoned after two items with listeners, "
+    "the propagator's bound copy must be bit-identical afterwards; no yielded state may BE a stored / bound object. Part P asks every fixture for "
+    "the dates exactly k = 1..7 propagator steps before and after the epoch, as propagate() target and as iteration start, against a stream "
+    "anchored 8 steps before the epoch. Part B is an explicit-state search: all call sequences up to depth 3 "
+    "(quick) / 4 (thorough) over 9 operations (propagate to two dates, full iteration, iteration abandoned after two items with listeners, "
     "iteration with listeners over (start, stop, step) and over explicit dates, ephem(), propagation of a SECOND orbit bound to the same "
-    "propagator object) on one shared orbit, its propagator and two listener objects; for the ephemeris 10 operations including own-step "
-    "iterations and the resumption of a suspended iterator. Each history is re-executed from scratch on the real objects; the observation "
+    "propagator object, in-place conversion / overwriting of everything an iteration and a derived ephemeris yielded) on one shared orbit, "
+    "its propagator and two listener objects; for the ephemeris 11 operations including own-step iterations and the resumption of a "
+    "suspended iterator. Library exceptions raised inside fixture / oracle / observation calls are reported as violations, not as harness errors. Each history is re-executed from scratch on the real objects; the observation "
     "(propagate(t*), listened streams with events over (start, stop, step), dates=DateRange and dates=list, bytes and metadata of the "
     "initial orbit) must equal that of fresh objects, and the three listened streams must equal each other.",
     note="Trusts the integer range model, direct propagate() of a fresh object as the state oracle (its own correctness is the "
@@ -42,9 +45,10 @@ RULE = (
 )
 BOUNDS = {
     "quick": "part A: 10 fixtures x 3 starts x 6 spans x 3 steps x 10 request forms through iter() (non-distinct combinations not generated), forms "
-    "{Date stop, timedelta stop} through ephem(), ephemeris() and (Sgp4, Kepler, KeplerNum) Station.visibility(); part B: all histories of depth <= 3 "
-    "over 8 operations (585 per orbit propagator, 9 fixtures) / 10 operations (1 111, ephemeris)",
-    "thorough": "part A: all forms through iter(), ephemeris() and ephem(); part B: depth <= 4 (4 681 histories per orbit propagator, 11 111 for the ephemeris)",
+    "{Date stop, timedelta stop} through ephem(), ephemeris() and (Sgp4, Kepler, KeplerNum) Station.visibility(); part P: 9 fixtures x k = +-1..7 steps from the epoch (propagate target, "
+    "iteration start); part B: all histories of depth <= 3 over 9 operations (820 per orbit propagator, 9 fixtures) / 11 operations (1 464, ephemeris)",
+    "thorough": "part A: all forms through iter(), ephemeris() and ephem(); part B: depth <= 4 for Sgp4, Kepler, KeplerNum, CW with maneuvers "
+    "(7 381 histories each) and the ephemeris (16 105), depth <= 3 for the variant fixtures",
 }
 ASSUMPTIONS = [
     "expected dates: start + k*step (k = 0, 1, ...) not beyond stop, the sign of step following the direction of the range; start == stop yields one date; "
@@ -917,8 +921,9 @@ def units(tier, seed):
                     u.append((cfg, dict(part="A", cases=cases)))
     for pname in P_PROPS:
         u.append((cfg, dict(part="P", cases=[dict(part="P", prop=pname, k=k) for k in range(-7, 8) if k])))
-    depth = 3 if tier == "quick" else 4
     for pname in PROPS:
+        # thorough: depth 4 for one fixture of each kind, depth 3 for their variants (J2, NonePropagator, the second/third KeplerNum, plain CW)
+        depth = 4 if (tier == "thorough" and pname in ("Sgp4", "Kepler", "KeplerNum", "CWman", "Ephem")) else 3
         for first in [None] + ops_of(pname):
             if first is None:
                 u.append((cfg, dict(part="B", prop=pname, prefix=[], depth=0)))
